@@ -228,7 +228,11 @@ func (c *tracingHTTP2Conn) getStreamLocked(frame *http2.MetaHeadersFrame, create
 
 func (c *tracingHTTP2Conn) newStreamLocked(frame *http2.MetaHeadersFrame) *http2Stream {
 	req := makeRequest(frame)
-	builder, _ := newBuilder(req, !c.isServer, c.collector)
+	// The request was decoded from the frames on the wire, so all of its headers
+	// are known, on a client connection as well as on a server one. (The "client"
+	// mode of the builder is for round-trippers, where the transport adds headers
+	// later and reports them via httptrace.)
+	builder, _ := newBuilder(req, false, c.collector)
 	isStream, decompressor := propertiesFromHeaders(req.Header)
 	stream := &http2Stream{
 		builder:       builder,
@@ -549,6 +553,9 @@ func makeRequest(frame *http2.MetaHeadersFrame) *http.Request {
 		},
 		Method: getPseudoHeader(frame, ":method"),
 		Header: makeHeaders(frame),
+		// The length of the body is not known from this frame. If there is a
+		// "content-length" header, it is already in the headers above.
+		ContentLength: -1,
 	}
 	return req
 }
